@@ -17,7 +17,7 @@ import (
 func init() {
 	register(&Check{
 		ID:   "C05",
-		Rule: "case = one seed (destination type T, valid message m) drawn from the C01 corpus; per seed every prefix of m, every structural byte located by the schema-less parser (type codes, ids, lengths, counts, STOPs) overwritten with boundary values, all 256 type codes at three type-code sites, well-formed fields with edge ids (0, 1, max+1, 32767, 32768, 65535) injected into every struct instance, random single-byte corruptions, splices with a second message, trailing junk and random strings are decoded from a buffer right-aligned against a guard page; oracle per input: no panic/fault, success iff the reference decoder accepts (either for LENIENT encodings), same n, allocation <= 64KiB+16*(maxElem+16)*len; distinct = distinct (type shape) ; non-trivial = at least 10 inputs rejected and 1 accepted",
+		Rule: "case = one seed (destination type T, valid message m) drawn from the C01 corpus; per seed every prefix of m (read by T, by a reader that knows no field at all, and by an evolved older/newer schema of T, so that cuts fall inside skipped values too), every structural byte located by the schema-less parser (type codes, ids, lengths, counts, STOPs) overwritten with boundary values, all 256 type codes at three type-code sites, well-formed fields with edge ids (0, 1, max+1, 32767, 32768, 65535) injected into every struct instance, random single-byte corruptions, splices with a second message, trailing junk and random strings are decoded from a buffer right-aligned against a guard page; oracle per input: no panic/fault, success iff the reference decoder accepts (either for LENIENT encodings), same n, allocation <= 64KiB+16*(maxElem+16)*len; distinct = distinct (type shape) ; non-trivial = at least 10 inputs rejected and 1 accepted",
 		Plan: func(tier string) []BuildPlan {
 			if tier == "thorough" {
 				return []BuildPlan{{"plain", 1200}, {"checkptr", 600}, {"asan", 300}}
@@ -288,6 +288,36 @@ func runC05(c *harness.Ctx, idx int) {
 			k := r.Intn(L)
 			m.try(fmt.Sprintf("prefix[:%d]", k), msg[:k])
 		}
+	}
+	// the same prefixes read by readers that know less than the writer: every field the
+	// reader does not know (or knows under another type) goes through the skip path, and a
+	// cut inside a skipped value must still end in an error. Readers: one that knows no
+	// field at all (with or without a holder), and an evolved (older/newer) schema.
+	{
+		empty := &schema.Struct{UnknownIdx: -1, HasUnknown: idx%2 == 0}
+		empty.Build()
+		readers := []*schema.Struct{empty}
+		if len(s.Fields) > 0 {
+			readers = append(readers, gen.Evolve(r, s, &gen.EvolveCfg{}, 0))
+		}
+		for ri, t := range readers {
+			mr := newDecodeMonitor(c, t, len(msg)+64)
+			mr.try(fmt.Sprintf("reader%d:valid", ri), msg)
+			step := 1
+			if L > 1500 {
+				step = L / 1500
+			}
+			for k := 0; k < L; k += step {
+				mr.try(fmt.Sprintf("reader%d:prefix[:%d]", ri, k), msg[:k])
+			}
+			m.inputs += mr.inputs
+			m.accepted += mr.accepted
+			m.rejected += mr.rejected
+			m.lenient += mr.lenient
+			m.gray += mr.gray
+			mr.free()
+		}
+		c.Count("older_reader_inputs", 1)
 	}
 	// structural corruptions
 	pr := wire.Parse(msg)
